@@ -198,7 +198,8 @@ def run(m, rep, tier):
     e6 = rep.rule('E6', 'resize initialises exactly the buckets [current count, requested count) after the forced rehash and the flip', floor=1)
     from . import c03
     mod = m.plain.get('hash')
-    f = mod.fn('cstl_hash_resize') if mod is not None else None
+    from ..hashmodel import focus_hash
+    f = focus_hash(m).fn('cstl_hash_resize') if mod is not None else None
     if f is None or f.decl:
         e6.undecided('cstl_hash_resize', 'not found')
     else:
